@@ -90,5 +90,111 @@ theorem FrameStep.trans {a b c : Rebuild w} {n1 n2 : List (Instr w)} (h1 : Frame
     refine ⟨p2.trans p1, fun v hv => ?_⟩
     rw [m2 v hv, m1 v (w2 v hv)]
 
+/-- The end states of a simulation are end states. -/
+theorem Sim.fin_strengthen {Q : State w → State w → Prop} {a b : List (Instr w)} {σS σE : State w}
+    (h : Sim Q a b σS σE) :
+    Sim (fun x y => Q x y ∧ Exec a σS (.fin x) ∧ Exec b σE (.fin y)) a b σS σE := by
+  refine ⟨?_, h.stopL, h.partL, ?_, h.stopR, h.partR⟩
+  · intro x hx
+    obtain ⟨y, hy, hq⟩ := h.finL x hx
+    exact ⟨y, hy, hq, hx, hy⟩
+  · intro y hy
+    obtain ⟨x, hx, hq⟩ := h.finR y hy
+    exact ⟨x, hx, hq, hx, hy⟩
+
+/-! ### relativized to valid states
+
+(Only the FIRST of the two runs has to be valid: the second one agrees with it on everything that is read.)
+For loops the footprint only holds for states that really occur (e.g. a cell recorded as definitely written by
+a loop that "runs at least once" is written only if the claim about the loop is true): `V` is the set of valid
+start states (those related to some state of the source program). -/
+
+/-- The state of the emitted program is related to some state of the source program. -/
+def Valid (sh : Int) (s : Rebuild w) (ps : List (Rebuild w)) (σ : State w) : Prop :=
+  ∃ M0 σS, RelAt sh s ps M0 σ σS
+
+/-- … and the source state satisfies the guard `G` (facts known about the source states that really occur). -/
+def ValidG (G : State w → Prop) (sh : Int) (s : Rebuild w) (ps : List (Rebuild w)) (σ : State w) : Prop :=
+  ∃ M0 σS, RelAt sh s ps M0 σ σS ∧ G σS
+
+def FootStepV (V : State w → Prop) (s s' : Rebuild w) (new : List (Instr w)) : Prop :=
+  s'.subShift = false →
+  ∀ (K : Int → Prop), (∀ v, K v → v ∉ s'.reads) →
+  ∀ σ1 σ2 : State w, V σ1 → AgreeOff (Rest K s) σ1 σ2 →
+    Sim (fun a b => AgreeOff (Rest K s') a b) new new σ1 σ2
+
+def FrameStepV (V : State w → Prop) (s s' : Rebuild w) (new : List (Instr w)) : Prop :=
+  s'.subShift = false →
+  (∀ v, mGet s'.written v = none → mGet s.written v = none) ∧
+  ∀ σ σ' : State w, V σ → Exec new σ (.fin σ') →
+    σ'.ptr = σ.ptr ∧ ∀ v, mGet s'.written v = none → memE σ' v = memE σ v
+
+/-- Badness (reaching a `once` loop with a zero condition) is mirrored along the footprint: if the second run
+goes bad so does the (valid) first one. -/
+def FootBadV (V : State w → Prop) (s s' : Rebuild w) (new : List (Instr w)) : Prop :=
+  s'.subShift = false →
+  ∀ (K : Int → Prop), (∀ v, K v → v ∉ s'.reads) →
+  ∀ σ1 σ2 : State w, V σ1 → AgreeOff (Rest K s) σ1 σ2 → Bad new σ2 → Bad new σ1
+
+/-- Write frame along the footprint: in a run that mirrors a valid run, the pointer comes back and the cells
+that are neither keys of `written` nor in `reads` are untouched.  (For most code this holds for every run,
+syntactically; for a loop that is known never to exit once entered (`noEffect`) it holds because a run that
+reaches the end has not entered the loop.) -/
+def FootFrameV (V : State w → Prop) (s s' : Rebuild w) (new : List (Instr w)) : Prop :=
+  s'.subShift = false →
+  ∀ (K : Int → Prop), (∀ v, K v → v ∉ s'.reads) →
+  ∀ σ1 σ2 : State w, V σ1 → AgreeOff (Rest K s) σ1 σ2 → ∀ b, Exec new σ2 (.fin b) →
+    b.ptr = σ2.ptr ∧ ∀ v, v ∉ mKeys s'.written → v ∉ s'.reads → memE b v = memE σ2 v
+
+/-- `written` keys only grow (while no uncertain move happens). -/
+def KeysMono' (s s' : Rebuild w) : Prop :=
+  s'.subShift = false → ∀ v, v ∈ mKeys s.written → v ∈ mKeys s'.written
+
+theorem FootFrameV.trans {V V' : State w → Prop} {a b c : Rebuild w} {n1 n2 : List (Instr w)}
+    (f1 : FootFrameV V a b n1) (h1 : FootStepV V a b n1) (f2 : FootFrameV V' b c n2)
+    (hv : ∀ σ σ', V σ → Exec n1 σ (.fin σ') → V' σ') (hm : ReadsMono b c) (hk : KeysMono' b c) :
+    FootFrameV V a c (n1 ++ n2) := by
+  intro hs K hK σ1 σ2 v1 hag bb hex
+  have hsb := hm.2 hs
+  have hKb : ∀ v, K v → v ∉ b.reads := fun v hv' hr => hK v hv' (hm.1 v hr)
+  rcases exec_append.1 hex with ⟨hf, _⟩ | ⟨σ2', e1, e2⟩
+  · cases hf
+  · obtain ⟨σ1', e1', hag'⟩ := (h1 hsb K hKb σ1 σ2 v1 hag).finR σ2' e1
+    obtain ⟨p1, m1⟩ := f1 hsb K hKb σ1 σ2 v1 hag σ2' e1
+    obtain ⟨p2, m2⟩ := f2 hs K hK σ1' σ2' (hv σ1 σ1' v1 e1') hag' bb e2
+    refine ⟨p2.trans p1, fun v hv1 hv2 => ?_⟩
+    rw [m2 v hv1 hv2]
+    exact m1 v (fun h => hv1 (hk hs v h)) (fun h => hv2 (hm.1 v h))
+
+theorem FootStep.toV {s s' : Rebuild w} {new : List (Instr w)} (h : FootStep s s' new) (V : State w → Prop) :
+    FootStepV V s s' new := fun hs K hK σ1 σ2 _ hag => h hs K hK σ1 σ2 hag
+
+theorem FrameStep.toV {s s' : Rebuild w} {new : List (Instr w)} (h : FrameStep s s' new) (V : State w → Prop) :
+    FrameStepV V s s' new := fun hs => ⟨(h hs).1, fun σ σ' _ hex => (h hs).2 σ σ' hex⟩
+
+theorem FootStepV.trans {V V' : State w → Prop} {a b c : Rebuild w} {n1 n2 : List (Instr w)}
+    (h1 : FootStepV V a b n1) (h2 : FootStepV V' b c n2)
+    (hv : ∀ σ σ', V σ → Exec n1 σ (.fin σ') → V' σ') (hm : ReadsMono b c) : FootStepV V a c (n1 ++ n2) := by
+  intro hs K hK σ1 σ2 v1 h
+  have hs1 := (h1 (hm.2 hs) K (fun v hv' hr => hK v hv' (hm.1 v hr)) σ1 σ2 v1 h).fin_strengthen
+  refine Sim.append hs1 ?_
+  rintro x y ⟨hxy, hx, _⟩
+  exact h2 hs K hK x y (hv σ1 x v1 hx) hxy
+
+theorem FrameStepV.trans {V V' : State w → Prop} {a b c : Rebuild w} {n1 n2 : List (Instr w)}
+    (h1 : FrameStepV V a b n1) (h2 : FrameStepV V' b c n2)
+    (hv : ∀ σ σ', V σ → Exec n1 σ (.fin σ') → V' σ') (hm : ReadsMono b c) : FrameStepV V a c (n1 ++ n2) := by
+  intro hs
+  obtain ⟨w2, f2⟩ := h2 hs
+  obtain ⟨w1, f1⟩ := h1 (hm.2 hs)
+  refine ⟨fun v h => w1 v (w2 v h), ?_⟩
+  intro σ σ' hvσ h
+  rcases exec_append.1 h with ⟨hf, _⟩ | ⟨σ1, e1, e2⟩
+  · cases hf
+  · obtain ⟨p1, m1⟩ := f1 σ σ1 hvσ e1
+    obtain ⟨p2, m2⟩ := f2 σ1 σ' (hv σ σ1 hvσ e1) e2
+    refine ⟨p2.trans p1, fun v hv' => ?_⟩
+    rw [m2 v hv', m1 v (w2 v hv')]
+
 end OptProof
 end Hpbf
